@@ -4,7 +4,10 @@ package store
 // preserve a cross-table invariant, with backups of every format and flag combination (and
 // user snapshots) taken concurrently. Every successful backup is loaded into a fresh SQLite
 // database and must (1) satisfy the invariant and (2) equal the state after SOME committed
-// prefix of the write history. A backup call may fail (gate busy): that must be an error.
+// prefix of the write history, SCHEMA OBJECTS INCLUDED: after every c21GenEvery-th transaction
+// the writer commits a schema transaction that creates generation g of a table with an index, a
+// view and a trigger, and drops generation g-1. A backup call may fail (gate busy): that must
+// be an error.
 //
 // TestVerifC21Gate drives the real Store SEQUENTIALLY through generated schedules of commits,
 // snapshots and binary backups whose destination writer runs further commits and snapshot
@@ -20,6 +23,7 @@ import (
 	"io"
 	"os"
 	"path/filepath"
+	"sort"
 	"strings"
 	"sync"
 	"sync/atomic"
@@ -52,6 +56,39 @@ type c21State struct {
 	a, b       map[int64]int64
 	bal1, bal2 int64
 	hasAcct    bool
+	gen        int64    // schemaver.g
+	objs       []string // "type:name" of every user schema object, sorted
+	ledger     string   // rows of the generation table named by gen, or the error reading it
+}
+
+// a schema transaction follows every c21GenEvery-th data transaction
+const c21GenEvery = 5
+
+func c21GenObjs(g int64) []string {
+	objs := []string{"table:a", "table:acct", "table:b", "table:schemaver",
+		fmt.Sprintf("table:ledger_%d", g), fmt.Sprintf("index:ledger_%d_ix", g),
+		fmt.Sprintf("view:ledger_%d_vw", g), fmt.Sprintf("trigger:ledger_%d_tr", g)}
+	sort.Strings(objs)
+	return objs
+}
+
+func c21GenCreate(g int64) []string {
+	return []string{
+		fmt.Sprintf("CREATE TABLE ledger_%d (id INTEGER PRIMARY KEY, v INTEGER)", g),
+		fmt.Sprintf("CREATE INDEX ledger_%d_ix ON ledger_%d(v)", g, g),
+		fmt.Sprintf("CREATE VIEW ledger_%d_vw AS SELECT id, v FROM ledger_%d", g, g),
+		fmt.Sprintf("CREATE TRIGGER ledger_%d_tr AFTER INSERT ON ledger_%d BEGIN SELECT 1; END", g, g),
+		fmt.Sprintf("INSERT INTO ledger_%d(id, v) VALUES(1, %d)", g, g),
+	}
+}
+
+func c21GenDrop(g int64) []string {
+	return []string{
+		fmt.Sprintf("DROP VIEW ledger_%d_vw", g),
+		fmt.Sprintf("DROP TRIGGER ledger_%d_tr", g),
+		fmt.Sprintf("DROP INDEX ledger_%d_ix", g),
+		fmt.Sprintf("DROP TABLE ledger_%d", g),
+	}
 }
 
 func c21Load(dir string, data []byte, cfg c21Cfg) (*c21State, error) {
@@ -125,6 +162,34 @@ func c21Load(dir string, data []byte, cfg c21Cfg) (*c21State, error) {
 		st.bal1 = rows[0].Values[0].Parameters[1].GetI()
 		st.bal2 = rows[0].Values[1].Parameters[1].GetI()
 	}
+	rows, err = d.QueryStringStmt("SELECT type, name FROM sqlite_master WHERE name NOT LIKE 'sqlite_%'")
+	if err != nil {
+		return nil, err
+	}
+	if rows[0].Error != "" {
+		return nil, fmt.Errorf("query sqlite_master: %s", rows[0].Error)
+	}
+	for _, v := range rows[0].Values {
+		st.objs = append(st.objs, v.Parameters[0].GetS()+":"+v.Parameters[1].GetS())
+	}
+	sort.Strings(st.objs)
+	st.gen = -1
+	rows, err = d.QueryStringStmt("SELECT g FROM schemaver")
+	if err == nil && rows[0].Error == "" && len(rows[0].Values) == 1 {
+		st.gen = rows[0].Values[0].Parameters[0].GetI()
+		// the view reads the table through the schema as loaded
+		rows, err = d.QueryStringStmt(fmt.Sprintf("SELECT id, v FROM ledger_%d_vw", st.gen))
+		switch {
+		case err != nil:
+			st.ledger = "error: " + err.Error()
+		case rows[0].Error != "":
+			st.ledger = "error: " + rows[0].Error
+		default:
+			for _, v := range rows[0].Values {
+				st.ledger += fmt.Sprintf("(%d,%d)", v.Parameters[0].GetI(), v.Parameters[1].GetI())
+			}
+		}
+	}
 	return st, nil
 }
 
@@ -156,11 +221,26 @@ func c21Prefix(st *c21State) (int64, string) {
 	if st.bal2 != 500+sum {
 		return 0, fmt.Sprintf("tables a,b hold transactions 1..%d but acct reflects a different prefix (bal2=%d, expected %d)", m, st.bal2, 500+sum)
 	}
+	// schema objects: exactly one generation, the one schemaver names, and the one the writer
+	// had installed after m data transactions (installed between transaction c21GenEvery*g
+	// and the next one)
+	if st.gen < 0 {
+		return 0, "schemaver row missing"
+	}
+	if want := c21GenObjs(st.gen); strings.Join(st.objs, " ") != strings.Join(want, " ") {
+		return 0, fmt.Sprintf("schemaver says generation %d, i.e. schema objects %v, but the backup has %v", st.gen, want, st.objs)
+	}
+	if want := fmt.Sprintf("(1,%d)", st.gen); st.ledger != want {
+		return 0, fmt.Sprintf("view ledger_%d_vw yields %q, expected %q", st.gen, st.ledger, want)
+	}
+	if g := m / c21GenEvery; st.gen != g && !(m%c21GenEvery == 0 && st.gen == g-1) {
+		return 0, fmt.Sprintf("tables a,b hold transactions 1..%d but the schema is generation %d (the writer installs generation g right after transaction %d*g)", m, st.gen, c21GenEvery)
+	}
 	return m, ""
 }
 
 func TestVerifC21Store(t *testing.T) {
-	rep := vfNewReport("C21", "live single-node Store; writer issuing transactions that each insert into table a, move money between two acct rows and insert into table b (invariant: a and b hold the same seqs 1..m, balances sum to 1000 and reflect exactly those m transfers); concurrently backups of every format x vacuum x compress and user snapshots. A backup is non-trivial when it was taken while the writer was active and holds at least one transaction; distinct by configuration and prefix length")
+	rep := vfNewReport("C21", "live single-node Store; writer issuing transactions that each insert into table a, move money between two acct rows and insert into table b, and after every 5th a schema transaction creating generation g of a table+index+view+trigger and dropping generation g-1 (invariant: a and b hold the same seqs 1..m, balances sum to 1000 and reflect exactly those m transfers, the schema objects are exactly those of the generation installed after m transactions and the view works); concurrently backups of every format x vacuum x compress and user snapshots. A backup is non-trivial when it was taken while the writer was active and holds at least one transaction; distinct by configuration and prefix length")
 	defer rep.Write()
 	dir := t.TempDir()
 	r := vfNewRng(21)
@@ -174,32 +254,27 @@ func TestVerifC21Store(t *testing.T) {
 		t.Fatalf("bootstrap: %v", err)
 	}
 	defer s.Close(true)
-	if _, err := s.WaitForLeader(10 * time.Second); err != nil {
+	if _, err := s.WaitForLeader(60 * time.Second); err != nil {
 		t.Fatalf("leader: %v", err)
 	}
-	exec := func(tx bool, stmts ...string) error {
-		res, _, err := s.Execute(context.Background(), executeRequestFromStrings(stmts, false, tx))
-		if err != nil {
-			return err
-		}
-		for _, r := range res {
-			if e := r.GetError(); e != "" {
-				return fmt.Errorf("%s", e)
-			}
-		}
-		return nil
-	}
-	if err := exec(false,
+	exec := func(tx bool, stmts ...string) error { return c21Execute(s, stmts, tx) }
+	if err := exec(true,
 		"CREATE TABLE a (seq INTEGER PRIMARY KEY, v INTEGER)",
 		"CREATE TABLE acct (id INTEGER PRIMARY KEY, bal INTEGER)",
 		"CREATE TABLE b (seq INTEGER PRIMARY KEY, v INTEGER)",
 		"INSERT INTO acct(id, bal) VALUES(1, 500)",
-		"INSERT INTO acct(id, bal) VALUES(2, 500)"); err != nil {
+		"INSERT INTO acct(id, bal) VALUES(2, 500)",
+		"CREATE TABLE schemaver (g INTEGER)",
+		"INSERT INTO schemaver(g) VALUES(0)"); err != nil {
 		t.Fatalf("schema: %v", err)
+	}
+	if err := exec(true, c21GenCreate(0)...); err != nil {
+		t.Fatalf("schema generation 0: %v", err)
 	}
 
 	var acked atomic.Int64 // transactions acknowledged so far
 	var started atomic.Int64
+	var schemaTx atomic.Int64
 	stop := make(chan struct{})
 	var wg sync.WaitGroup
 	wg.Add(1)
@@ -223,6 +298,17 @@ func TestVerifC21Store(t *testing.T) {
 				return
 			}
 			acked.Store(k)
+			if k%c21GenEvery == 0 {
+				// one schema transaction: generation g comes, generation g-1 goes
+				g := k / c21GenEvery
+				stmts := append(c21GenCreate(g), c21GenDrop(g-1)...)
+				stmts = append(stmts, fmt.Sprintf("UPDATE schemaver SET g = %d", g))
+				if err := exec(true, stmts...); err != nil {
+					t.Errorf("schema transaction %d: %v", g, err)
+					return
+				}
+				schemaTx.Add(1)
+			}
 			if k > 3000 {
 				time.Sleep(2 * time.Millisecond) // keep the database (and every backup of it) small enough
 			}
@@ -268,6 +354,7 @@ func TestVerifC21Store(t *testing.T) {
 		{
 			cfg := plan[pi]
 			before := acked.Load()
+			schemaBefore := schemaTx.Load()
 			var buf bytes.Buffer
 			br := &proto.BackupRequest{Format: cfg.format, Vacuum: cfg.vacuum, Compress: cfg.compress}
 			err := s.Backup(context.Background(), br, &buf)
@@ -300,6 +387,9 @@ func TestVerifC21Store(t *testing.T) {
 			if after > before {
 				rep.Count("backups-overlapping-a-commit")
 			}
+			if schemaTx.Load() > schemaBefore {
+				rep.Count("backups-overlapping-a-schema-transaction:" + cfg.String())
+			}
 			if len(rep.Samples) < 3 {
 				rep.Sample(map[string]interface{}{"config": cfg.String(), "transactions_in_backup": m, "acked_before_call": before, "started_by_end": after, "bytes": buf.Len()})
 			}
@@ -308,6 +398,7 @@ func TestVerifC21Store(t *testing.T) {
 	close(stop)
 	wg.Wait()
 	rep.CountN("transactions-written", int(acked.Load()))
+	rep.CountN("schema-transactions-written", int(schemaTx.Load()))
 }
 
 // ---- gate / main file / WAL: sequential schedules against the model --------------------------------
@@ -384,14 +475,13 @@ func TestVerifC21Gate(t *testing.T) {
 		t.Fatalf("bootstrap: %v", err)
 	}
 	defer s.Close(true)
-	if _, err := s.WaitForLeader(10 * time.Second); err != nil {
+	if _, err := s.WaitForLeader(60 * time.Second); err != nil {
 		t.Fatalf("leader: %v", err)
 	}
 	n := int64(0)
 	exec := func(stmt string) {
-		res, _, err := s.Execute(context.Background(), executeRequestFromStrings([]string{stmt}, false, false))
-		if err != nil || res[0].GetError() != "" {
-			t.Fatalf("exec: %v %v", err, res)
+		if err := c21Execute(s, []string{stmt}, false); err != nil {
+			t.Fatalf("exec: %v", err)
 		}
 	}
 	// the schema entry is the model's first write: table g exists from transaction 1 on
